@@ -31,6 +31,12 @@ CONFIG = {
     "C10": dict(wants=["local", "any", "eom"], profiles=["target", "phase", "mix", "eom"],
                 quick=1000, thorough=20000, wrap_share=0.2,
                 lean_targets=["PulserModel", "Properties.C10"]),
+    "C07": dict(wants=["any", "local", "eom", "dmm"], profiles=["phase", "mix", "target", "eom"],
+                quick=1000, thorough=20000, wrap_share=0.5,
+                lean_targets=["PulserModel", "Properties.C07"]),
+    "C15": dict(wants=["eom"], profiles=["eom", "eom", "mix"],
+                quick=800, thorough=15000, wrap_share=0.4,
+                lean_targets=["PulserModel", "Properties.C15"]),
     "C02": dict(wants=["any", "eom", "dmm", "local"], profiles=["mix", "eom", "target", "dmm"],
                 quick=1200, thorough=20000, wrap_share=0.2,
                 lean_targets=["PulserModel", "Properties.C02"]),
